@@ -99,10 +99,31 @@ func checkPathsCase(res *Result, pc *pathsCase, T string, idx int) {
 			_ = os.Remove(p)
 		}
 	}()
+	// The frames always sit in call stacks (only those take part in root detection); the shape of
+	// the dump around them varies: 0 one goroutine; 1 plus a "created by" frame that repeats one of
+	// the frames; 2 plus a "created by" frame under none of the roots; 3 two goroutines, the first
+	// created from outside the roots.
+	variant := idx % 4
+	const outside = "/zzz/elsewhere/spawn.go"
 	var sb strings.Builder
 	sb.WriteString("goroutine 1 [running]:\n")
+	split := len(pc.Frames)
+	if variant == 3 && len(pc.Frames) > 1 {
+		split = (len(pc.Frames) + 1) / 2
+	}
+	createdCopy := -1
 	for i, f := range pc.Frames {
+		if i == split {
+			fmt.Fprintf(&sb, "created by example.com/zz.spawn\n\t%s:7 +0x1\n\ngoroutine 2 [running]:\n", outside)
+		}
 		fmt.Fprintf(&sb, "example.com/zz.f%d()\n\t%s:%d +0x1\n", i, atomsToPath(f, T), 10+i)
+	}
+	switch {
+	case variant == 1 && len(pc.Frames) > 0:
+		createdCopy = (idx / 4) % len(pc.Frames)
+		fmt.Fprintf(&sb, "created by example.com/zz.spawn\n\t%s:7 +0x1\n", atomsToPath(pc.Frames[createdCopy], T))
+	case variant == 2 || (variant == 3 && split == len(pc.Frames)):
+		fmt.Fprintf(&sb, "created by example.com/zz.spawn\n\t%s:7 +0x1\n", outside)
 	}
 	opts := &stack.Opts{LocalGOROOT: T + "/G", LocalGOPATHs: []string{T + "/P", T + "/V"}, GuessPaths: true}
 	mk := func(prop, aspect, what string, exp, got interface{}) Finding {
@@ -125,7 +146,13 @@ func checkPathsCase(res *Result, pc *pathsCase, T string, idx int) {
 			res.violation(mk("C18", "panic", "ScanSnapshot with GuessPaths panicked: "+pan, nil, pan))
 			return
 		}
-		if s == nil || len(s.Goroutines) != 1 || len(s.Goroutines[0].Stack.Calls) != len(pc.Frames) {
+		ncalls := 0
+		if s != nil {
+			for _, g := range s.Goroutines {
+				ncalls += len(g.Stack.Calls)
+			}
+		}
+		if s == nil || ncalls != len(pc.Frames) {
 			res.violation(mk("C01", "parse", "dump did not parse back", nil, nil))
 			return
 		}
@@ -192,8 +219,43 @@ func checkPathsCase(res *Result, pc *pathsCase, T string, idx int) {
 		}
 	}
 	// each detected remote root prefixes a frame it explains (checked on the real values too)
-	for i := range s.Goroutines[0].Stack.Calls {
-		c := &s.Goroutines[0].Stack.Calls[i]
+	var calls []*stack.Call
+	for _, g := range s.Goroutines {
+		for i := range g.Stack.Calls {
+			calls = append(calls, &g.Stack.Calls[i])
+		}
+	}
+	// the frame a goroutine was created from is located with the same roots
+	for _, g := range s.Goroutines {
+		for i := range g.CreatedBy.Calls {
+			c := &g.CreatedBy.Calls[i]
+			got := map[string]interface{}{"class": c.Location.String(), "local": c.LocalSrcPath, "rel": c.RelSrcPath}
+			if c.RemoteSrcPath == outside {
+				if c.Location != stack.LocationUnknown || c.LocalSrcPath != "" {
+					res.violation(mk("C18", "created-outside", "a 'created by' frame under none of the detected roots got a location or a local path", map[string]interface{}{"class": "Unknown", "local": ""}, got))
+					return
+				}
+				continue
+			}
+			if createdCopy >= 0 {
+				l := &pc.Locs[createdCopy]
+				if c.Location != classLoc[l.Class] || c.LocalSrcPath != atomsToPath(l.Local, T) || c.RelSrcPath != relPath(l.Rel) {
+					f := mk("C18", "created", fmt.Sprintf("the 'created by' frame %s is mapped differently from the stack frame with the same path", c.RemoteSrcPath),
+						map[string]interface{}{"class": l.Class, "local": atomsToPath(l.Local, T), "rel": relPath(l.Rel)}, got)
+					if sc := calls[createdCopy]; sc.Location != c.Location || sc.LocalSrcPath != c.LocalSrcPath || sc.RelSrcPath != c.RelSrcPath {
+						res.violation(f) // the same path mapped in two ways inside one snapshot
+					} else if pc.InDomain {
+						res.violation(f)
+					} else {
+						res.drift(f)
+					}
+					return
+				}
+			}
+		}
+	}
+	for i := range calls {
+		c := calls[i]
 		l := &pc.Locs[i]
 		want := map[string]interface{}{"class": l.Class, "local": atomsToPath(l.Local, T), "rel": relPath(l.Rel)}
 		got := map[string]interface{}{"class": c.Location.String(), "local": c.LocalSrcPath, "rel": c.RelSrcPath, "import": c.ImportPath}
